@@ -1289,6 +1289,14 @@ func ruleConvOrder(c *Ctx) {
 		// preceded by a Modify on the same instance
 		okMod := false
 		inst := tr.trace(lval{sc.call.Common().Args[1], sc.fn, sc.chain})
+		// changeScale may be handed the instance's key instead of the instance: the instance is the one the key is read from
+		if ld, ok := inst.v.(*ssa.UnOp); ok && ld.Op == token.MUL {
+			if fa, ok := ld.X.(*ssa.FieldAddr); ok {
+				if n, _, _ := fieldName(fa); n == "Key" {
+					inst = tr.trace(inst.with(fa.X))
+				}
+			}
+		}
 		for _, m := range mods {
 			if regionDominates(m.li(), sc.li()) && tr.trace(lval{m.call.Common().Args[0], m.fn, m.chain}).same(inst) {
 				okMod = true
@@ -1336,7 +1344,10 @@ func ruleConvOrder(c *Ctx) {
 		if ld, ok := ns.Common().Args[0].(*ssa.UnOp); !ok || ld.Op != token.MUL {
 			problem = "NewScale is not given *v.Key"
 		} else if n, _, ok := loadedField(ld.X); !ok || n != "Key" {
-			problem = "NewScale is not given the instance's key"
+			// ... or the key itself, handed in by the caller (which reads it from the instance: checked at the call)
+			if p, isParam := ld.X.(*ssa.Parameter); !isParam || p.Parent() != cs || !strings.HasSuffix(typeName(p.Type()), "op.Key") {
+				problem = "NewScale is not given the instance's key"
+			}
 		}
 		if !c.errorReturned(ns.(*ssa.Call)) {
 			problem = "NewScale's error is not returned: a key without a scale is silently ignored"
